@@ -129,6 +129,49 @@ pub fn run(ctx: &Ctx) -> Report {
     let asmp = asm_block_programs();
     rep.absorb(par_cases(&asmp, |s, l| judge(s, "asm-block-and-assert", &all, l)));
     rep.absorb(par_cases(&asmp, |s, l| judge_sw(s, "asm-block-and-assert-unoptimised", &all, false, l)));
+    // a constant that is the last thing to change: its two alternatives differ in kind or width only (the same number
+    // as an 8- and a 16-bit string, booleans, a sized and an unsized integer), emitted from a bank of its own so that
+    // nothing else moves with it; the label it reads learns its place through a chain of 0..3 constants
+    {
+        let alts = [
+            ("utf16be(\"A\")", "utf8(\"A\")", "#d msg"),
+            ("\"\\0A\"", "\"A\"", "#d msg"),
+            ("true", "false", "#d8 msg ? 0xaa : 0xbb"),
+            ("0x0041", "0x41", "#d msg"),
+            ("0x41", "65", "#d8 msg"),
+            ("65", "0x41", "#d msg`8"),
+            ("utf8(\"AB\")", "utf16le(\"\u{4241}\")", "#d msg"),
+            ("0x0041", "0x41", "#d msg ? 0x1 : 0x2"),
+        ];
+        let mut progs: Vec<String> = vec![];
+        for (a, b, use_) in alts {
+            for chain in 0..=3usize {
+                for swap in [false, true] {
+                    for decl_first in [false, true] {
+                        let (x, y) = if swap { (b, a) } else { (a, b) };
+                        let mut t = String::from("#bankdef hdr  { #addr 0x00, #size 0x04, #outp 0 }\n#bankdef body { #addr 0x10, #size 0x20, #outp 8 * 0x04 }\n#bank hdr\n");
+                        let decl = format!("msg = tgt > 0x15 ? {} : {}\n", x, y);
+                        t += use_;
+                        t += "\n#bank body\n";
+                        if decl_first {
+                            t += &decl;
+                        }
+                        for k in (1..=chain).rev() {
+                            t += &format!("e{} = e{}\n", k, k - 1);
+                        }
+                        t += "e0 = s + 7\ns:\n";
+                        if !decl_first {
+                            t += &decl;
+                        }
+                        t += &format!("#res e{}\ntgt:\n#d8 0xff\n", chain);
+                        progs.push(t);
+                    }
+                }
+            }
+        }
+        rep.absorb(par_cases(&progs, |s, l| judge(s, "late-constant-of-another-kind", &all, l)));
+        rep.absorb(par_cases(&progs, |s, l| judge_sw(s, "late-constant-of-another-kind-unoptimised", &all, false, l)));
+    }
     rep.extra("budgets", json!(budgets));
     rep.assumptions = vec!["the implementation is compared with itself across budgets; no fixed point is predicted".into()];
     rep.require_class("outcome-depends-on-budget");
